@@ -215,6 +215,34 @@ def run_case(case):
                     C["rolled_back_operations"] += 1
             if exc is None and new != cur:
                 C["link_changing_operations"] += 1
+        elif r < 0.50:
+            # the system's own list of usage patterns (a pattern leaves only if it shares nothing computed with the others)
+            sysn = h.spec["system"]; cur = h.spec["objects"][sysn]["params"]["usage_patterns"][1]
+            outside = [u for u in names_of(h.spec, "UsagePattern") if u not in cur]
+            e = None
+            if outside and rnd.random() < 0.6:
+                u = rnd.choice(outside)
+                m = rnd.choice(["append", "insert", "iadd", "extend"])
+                e = {"op": "list", "obj": sysn, "attr": "usage_patterns", "method": m,
+                     "args": {"append": [u], "insert": [rnd.randint(0, len(cur)), u], "iadd": [[u]], "extend": [[u]]}[m]}
+            else:
+                rem = [u for u in cur if len(cur) > 1 and edits.can_remove_up(h.spec, u, [x for x in cur if x != u])]
+                if rem:
+                    u = rnd.choice(rem)
+                    m = rnd.choice(["remove", "remove_wrapper", "pop", "delitem"])
+                    e = {"op": "list", "obj": sysn, "attr": "usage_patterns", "method": m, "args": [u] if m.startswith("remove") else [cur.index(u)]}
+            if e is None:
+                continue
+            C["list_operations"] += 1; C["system_list_operations"] = C.get("system_list_operations", 0) + 1; classes.add("mut_" + e["method"])
+            spec_after = h.spec_after(e)
+            ref, err = h.reference(spec_after)
+            exc = h.apply(e, spec_after)
+            seq.append(edits.describe(e))
+            if exc is not None and ref is not None:
+                V.append({"kind": "list operation on system.usage_patterns raised although the resulting model is valid", "operation": edits.describe(e),
+                          "error": f"{type(exc).__name__}: {str(exc)[:160]}", **ctx})
+            elif exc is None:
+                C["link_changing_operations"] += 1
         elif r < 0.62:
             e = rnd.choice([edits.link_edit, edits.list_assign_edit])(rnd, h.spec)
             if e is None:
